@@ -72,6 +72,10 @@ type FsPlan struct {
 	Real           bool     `json:"real,omitempty"`
 	DirentsPerCall int      `json:"dirents_per_call,omitempty"`
 	HighFds        bool     `json:"high_fds,omitempty"`
+	// StallDen > 0: one yield in StallDen stalls, i.e. the simulated clock (and
+	// with it the time stamps the kernel puts on files and directories) moves
+	// while a task stands between two statements
+	StallDen int `json:"stall_den,omitempty"`
 }
 
 var c12Systems = []string{"mem", "dir", "mem/global", "dir/global"}
